@@ -18,7 +18,7 @@ DRIVERS = ["drv_reg"]
 DRIVER_EXE = "drv_reg"
 RULE = ("interleavings of registrations (accepted and rejected), read-only operations (CheckCategoryUnit, Scalar "
         "creation with unit+category / unit only / category only, Convert, IsValid, object-level GetValidUnits, +, "
-        "products/quotients and ObtainQuantity(OrderedDict)/CreateDerived in both composition orders, the registry getters) and failing lookups on a private UnitDatabase(): bounded-exhaustive over a 25-operation "
+        "+/- on derived operands (asked repeatedly), products/quotients and ObtainQuantity(OrderedDict)/CreateDerived in both composition orders, the registry getters) and failing lookups on a private UnitDatabase(): bounded-exhaustive over a 27-operation "
         "alphabet after a 2-, 4- or 5-call prefix to depth 3 (quick) / 4 (thorough), random interleavings of <= 30 steps over "
         "the name pools of C14; every step's outcome and registry-changed flag and the final memo tables are "
         "compared; distinct = distinct history; non-trivial = a query follows a registration that follows a query")
@@ -54,7 +54,12 @@ ALPHABET = [
     dict(q="derived", ents=[["depth", "m", 1], ["length", "cm", -1]]),
     dict(q="derived", ents=[["length", "cm", -1], ["depth", "m", 1]]),
     dict(q="div", c1="depth", u1="cm", c2="length", u2="m", x=1.5, y=2.0),
+    # + and - whose first operand is a derived quantity with two categories of one quantity type in different
+    # units (the matching rewrites units on copies of the composing maps; asked repeatedly inside one history)
+    dict(q="sumd", f="add", ents=[["length", "m", 1], ["depth", "cm", 1]], ents2=[["length", "m", 1], ["depth", "m", 1]], x=1.0, y=2.0),
+    dict(q="sumd", f="sub", ents=[["length", "m", 1], ["depth", "cm", 1]], ents2=[["length", "m", 1], ["depth", "m", 1]], x=5.0, y=1.0),
 ]
+N_CORE = 25   # the operations used at the deepest level of the thorough tier (the rest need the longer prefixes)
 
 
 def _history(ops, tag="h"):
@@ -76,6 +81,21 @@ def _rnd_ents(rng, cat, unit):
             seen.add(c)
             ents.append([c, unit(), rng.choice([1, 1, -1, 2, -2])])
     return ents
+
+
+def _rnd_sumd(rng, cat, unit):
+    """two operands over the same categories (so that the dimensions can agree), units drawn independently"""
+    cs = []
+    for _ in range(rng.choice([1, 2, 2, 3])):
+        c = cat()
+        if c not in cs:
+            cs.append(c)
+    exps = [rng.choice([1, 1, 1, 2, -1]) for _ in cs]
+    e1 = [[c, unit(), e] for c, e in zip(cs, exps)]
+    e2 = [[c, unit(), e] for c, e in zip(cs, exps)]
+    if rng.random() < 0.3:
+        e2.reverse()
+    return dict(q="sumd", f=rng.choice(["add", "sub"]), ents=e1, ents2=e2, x=rng.choice([1.0, 5.0, -2.5]), y=rng.choice([2.0, 1.0]))
 
 
 def _swapped(op):
@@ -117,6 +137,9 @@ def _rnd_query(rng, units=(), cats=(), extra=False):
         dict(q=rng.choice(["mul", "div"]), c1=c, u1=u, c2=cat(), u2=v, x=1.5, y=rng.choice([2.0, 2.0, 0.0])),
         dict(q=rng.choice(["mul", "div"]), c1=c, u1=u, c2=cat(), u2=v, x=-3.0, y=4.0),
         dict(q=rng.choice(["derived", "createDerived"]), ents=_rnd_ents(rng, cat, unit)),
+        dict(q="sumd", f=rng.choice(["add", "sub"]), ents=_rnd_ents(rng, cat, unit), ents2=_rnd_ents(rng, cat, unit),
+             x=rng.choice([1.0, 5.0, -2.5]), y=rng.choice([2.0, 1.0])),
+        _rnd_sumd(rng, cat, unit),
         dict(q="validUnits", c=c), dict(q="baseUnit", qt=rng.choice(types)), dict(q="units", qt=rng.choice(types)),
         dict(q="defaultCategory", u=u), dict(q="quantityType", u=u), dict(q="catInfo", c=c),
     ])
@@ -145,10 +168,10 @@ def _random(ctx, salt, n, maxlen, extra=False):
         yield _history(ops, "random")
 
 
-def _exhaustive(depth, prefixes=(PREFIX, PREFIX2)):
+def _exhaustive(depth, prefixes=(PREFIX, PREFIX2), n=None):
     for pre in prefixes:
         for d in range(1, depth + 1):
-            for idx in itertools.product(range(len(ALPHABET)), repeat=d):
+            for idx in itertools.product(range(n or len(ALPHABET)), repeat=d):
                 yield _history(pre + [ALPHABET[i] for i in idx], "exhaustive")
 
 
@@ -158,7 +181,7 @@ def cases(ctx):
         yield from _exhaustive(3)
         yield from _random(ctx, "q", 500, 30)
     else:
-        yield from _exhaustive(4, (PREFIX,))
+        yield from _exhaustive(4, (PREFIX,), N_CORE)
         yield from _exhaustive(3, (PREFIX2, PREFIX3))
         yield from _random(ctx, "t", 6000, 30)
 
